@@ -19,7 +19,11 @@ from pyvc.contracts import (Any, Bool, ByteArray, Bytes, Callback, ConcList, Con
 from pyvc.ext_c20 import ConcDict
 
 PROP = 'C17'
-ENVIRONMENT = []
+ENVIRONMENT = [
+    'SMP: the pairing handlers of Session are recording stubs that may raise (the pairing state machine itself: C13); Session.send_command is a recording stub; Manager.on_smp_pdu is checked for one connection (handle 1) with or without a session',
+    'Host.on_packet: HCI_Packet.from_bytes is a stub that returns a packet or raises one of six representative subclasses of Exception (the real parser: C01); the handlers behind on_hci_packet are a recording stub: an exception they raise leaves on_packet and is caught by PacketParser.feed_data (try/except Exception, then parser reset; C02)',
+    'PacketPump.run (transport/common.py) is used by no transport in this tree; it also catches Exception around on_packet, but at end of stream it spins on IncompleteReadError without yielding (not in the kernel)',
+]
 CODEC_INLINE = ['bumble.hci:*', 'bumble.smp:SMP_*', 'bumble.core:*', 'bumble.utils:*']
 
 SMP_PARSE_ERRORS = {core.InvalidPacketError: lambda pdu: [len(pdu) == 0], struct.error: None, IndexError: None, core.InvalidArgumentError: None}
